@@ -88,4 +88,8 @@ def generate(seed, tier):
             lines.append("res2 disp")
         lines.append("res close")
         g.count("create_rr_cases")
+    # the resolver's own periodic loop (real time, about five seconds)
+    for k in range(1 if tier == "quick" else 3):
+        lines.append("res3 real udp %s %s # spec=C19 eq emptied-after-failures" % (PORTS["5080"], hx("r%s-%d.invalid" % (nonce, k))))
+        g.count("real_loop_cases")
     return lines, g.stats
